@@ -19,7 +19,7 @@ structure DState where
 def parseFx (t : String) : Fixes :=
   match t.toList with
   | 'f' :: 'x' :: '=' :: a :: b :: c :: d :: e :: _ =>
-    { f2 := a == '1', f3 := b == '1', f10 := c == '1', f11 := d == '1', f12 := e == '1' }
+    { f2 := a == '1', f3 := b == '1', f10 := c == '1', f11 := d == '1', f12 := e == '1', f15 := e == '1' }
   | _ => Fixes.all
 
 def PMode.ofTok : String → PMode
@@ -281,7 +281,12 @@ def step (s : DState) (toks : List String) : DState × String :=
       boolTok (checkMtlsEnabledIn view dr (kind != "noistio" && !epDisabled) w p)
     let sv := joinOrDash (sortStrings (((inboundChains s.root s.pas w [{ port := p, target := p, proto := .http }]).filter
       (fun c => c.dst == some p)).map LChain.show))
-    (s, s!"C={boolTok c} E={e} BE={be.tok} S={sv}")
+    -- X: the transport socket Envoy selects for the endpoint is TLS (first matching transport socket match)
+    let x := if noEds then "-" else
+      match dr with
+      | some m => boolTok (m == .istioMutual)
+      | none => boolTok (c && checkMtlsEnabledIn view none (kind != "noistio" && !epDisabled) w p)
+    (s, s!"C={boolTok c} E={e} X={x} BE={be.tok} S={sv}")
   | ["ilh", ns, labels] =>
     let w : Workload := { ns := dec ns, labels := parseLabels labels }
     (s, s!"{showInbound s.root s.pas w [] false} {showHbone s.root s.pas w (chainConfigs inboundSvcPorts [] false)}")
@@ -295,6 +300,10 @@ def step (s : DState) (toks : List String) : DState × String :=
     -- other service protocols / fewer or no services
     let w : Workload := { ns := dec ns, labels := parseLabels labels }
     (s, showInboundWith s.root s.pas w (servicesOf protos) [] false false)
+  | ["aw", kind, ns, labels, mlabels] =>
+    let k : WKind := if kind == "pod" then .pod else if kind == "we" then .workloadEntry else .serviceEntryEndpoint
+    let keys := showKeys s.root (workloadKeysG s.fx s.root s.pas k (dec ns) (parseLabels labels) (parseLabels mlabels))
+    (s, s!"K={keys}")
   | ["aq", ns, labels, ports] =>
     let w : Workload := { ns := dec ns, labels := parseLabels labels }
     (s, showAmbientG s.fx s.root s.pas w (parsePortList ports))
